@@ -4,9 +4,12 @@
 //   - all pairs over generated name universes (every sequence of length ≤k over adversarial
 //     component sets) against an independent implementation of NDN canonical order, equality and
 //     the prefix relation; hashes and prefix hashes; all triples for transitivity;
-//   - URI round trip for every name the property covers, incl. all 256 single-byte values;
+//   - URI round trip for every name the property covers, incl. all 256 single-byte values, every
+//     value length of a boundary-dense length set x type family x fill pattern, every type number
+//     1..65535 and every binary/decimal magnitude boundary of the numeric conventions (lengths.go);
 //   - all four string parsers on EVERY string of length ≤L over an adversarial alphabet and on
-//     every single-character edit of the URI forms: a panic is a violation.
+//     every single-character edit of the URI forms, and on typed-prefix + unit^n strings for every
+//     repeat count of a boundary-dense set (digit runs, escapes, separators): a panic is a violation.
 //
 // Odometers only, nothing is sampled. `--replay <file>` re-executes one stored counterexample.
 package main
@@ -442,7 +445,7 @@ func main() {
 		"hash_collisions_between_distinct_names": map[string]any{"core": collC, "wide": collW, "mid40_thorough_only": collM, "pairwise_observed": st.collisions.Load(), "example": collEx,
 			"note": "evidence only; the property requires equal names to hash equally, not injectivity"},
 		"hash_structural_collision": map[string]any{"a": x.String(), "b": y.String(), "collide": structural,
-			"note": "HashInto feeds 8-byte type + value without a length, so these two distinct names feed identical bytes; not a violation of the property text"},
+			"note": "two distinct names that feed identical bytes to a hasher that writes 8-byte type + value without the value length; 'collide' says whether the code under test does so; not a violation of the property text"},
 		"violation_occurrences": counts,
 	}
 	rep.Finish(cov, []string{
